@@ -286,7 +286,7 @@ func (g *progGen) e(d int) string {
 
 // selfCtx: a place for an int-valued form inside a function body, the form's value being the context's value
 // up to arithmetic (the generators only need an int back)
-var selfCtxs = []string{"%s", "%s", "(+ 1 %s)", "(let [p 1 q %s] q)", "(letseq [p 1 q %s] (+ p q))", "(aget [1 %s] 1)", "(begin 1 %s)", "(newScope %s)",
+var selfCtxs = []string{"%s", "%s", "(let [] %s)", "(letseq [] %s)", "(let [] 1 %s)", "(+ 1 %s)", "(let [p 1 q %s] q)", "(letseq [p 1 q %s] (+ p q))", "(aget [1 %s] 1)", "(begin 1 %s)", "(newScope %s)",
 	"(first (list %s 2))", "(hget (hash a: %s) a:)", "(and true %s)", "(or false %s)", "(cond true %s 0)", "(let [p %s] p)", "((fn [z] z) %s)", "{ 1 + %s }", "(* 1 %s)",
 	"(let [p 1] (let [q %s] (+ p q)))", "(aget (array 1 %s) 1)", "(len (list %s))"}
 
@@ -558,7 +558,7 @@ func (g *progGen) nest(core string, n int) string {
 		}
 		if g.r.Chance(0.12) {
 			// inside a template, not in last position
-			s = fmt.Sprintf(g.r.Pick([]string{"(len ^[1 ~%s 3])", "(len ^(a ~%s b))", "(len ^[~%s ~(+ 1 1)])", "(len ^(a ~@(list %s 1) b))", "(len (hash a: %s b: 2))", "(len [%s 2 3])"}), s)
+			s = fmt.Sprintf(g.r.Pick([]string{"(expectError \"\" %s)", "(expectError \"o\" %s)", "(begin (expectError \"e\" %s) 1)", "(len ^[1 ~%s 3])", "(len ^(a ~%s b))", "(len ^[~%s ~(+ 1 1)])", "(len ^(a ~@(list %s 1) b))", "(len (hash a: %s b: 2))", "(len [%s 2 3])"}), s)
 		}
 	}
 	return s
@@ -876,6 +876,8 @@ var declForms = []string{
 	// anonymous typed functions, inline
 	"((func [a:int64] [r:int64] (return (+ a 1))) 2)", "(def af%d (func [a:int64] [r:int64] (return a))) (af%d 1) (+ 1 (af%d a:2))", "(map (func [a:int64] [r:int64] (return (+ a 1))) [1 2])",
 	"(let [q 1] ((func [a:int64] [r:int64] (return (+ a q))) 2))",
+	// forms with nothing in them where something usually is
+	"(package pe%d)", "(def pz%d (package \"pz\"))", "(let [] 1)", "(letseq [] 2)", "(defn le%d [] (let [] 3)) (le%d)", "(for [(def i 0) (< i 2) (def i (+ i 1))] (let [] i))", "(for [(def i 0) (< i 2) (def i (+ i 1))] (package pf%d))",
 	// packages declared inside loops and functions, loop control and self-calls inside package bodies
 	"(defn pf%d [] (for [(def i 0) (< i 2) (def i (+ i 1))] (package \"pp\" { A := 1 }) (cond (== i 0) (continue) 0)) 7) (pf%d)",
 	"(defn pg%d [] (for [(def i 0) (< i 2) (def i (+ i 1))] (package \"pq\" { A := 1; (cond (== A 1) (break) 0) })) 7) (pg%d)",
